@@ -2,6 +2,6 @@
 #[tarpc::service]
 pub trait Rej72 {
     async fn r#fn(ctx: tarpc::context::Context) -> String;
-    async fn serve(a0: i32, a1: i32);
+    async fn new(a0: i32, a1: i32);
 }
 fn main() {}
